@@ -25,20 +25,21 @@ def run(tier, runner):
     r_cl.require(4, 'roll-back helper overloads (shift_left, unshift_right x relocatable or not)')
     ob['HOLE'].require(3, 'functions that open slots with shift_right')
     ob['TEMP'].require(2, 'functions that build an element in a local ElemStorage')
+    ob['DEAD-TAIL'].require(4, 'vector members that destroy elements counted by size()')
     ob['RAWTAIL'].require(30, 'functions that construct into raw storage')
     r_strong.require(15, 'operations documented as strong')
     r_tail.require(12, 'size commits of the vector operations')
     r_blk.require(3, 'functions that hold a fresh block in a local variable (Reallocate, SmallVectorBase::grow, amc::allocator reallocate)')
     r_tr.require(60, 'amc functions whose exception specification evaluates to noexcept(true)')
     return {
-        'results': [ob['HOLE'], ob['TEMP'], ob['RAWTAIL'], r_strong, r_tail, r_tr, r_blk, r_rt, r_cl, r_cur],
+        'results': [ob['HOLE'], ob['TEMP'], ob['RAWTAIL'], ob['DEAD-TAIL'], r_strong, r_tail, r_tr, r_blk, r_rt, r_cl, r_cur],
         'explanation': 'Typestate analysis on the structured body of every function of the vector layer and of memory.hpp, per instantiation. '
                        'The may-throw points are exactly the calls from whose resolved callee a throw source (throw expression, allocator request, '
                        'element operation not declared noexcept) is reachable without crossing a noexcept(true) function - the same set the k-th '
                        'throwing event of C09 ranges over, obtained without running anything.  HOLE: slots opened by shift_right are re-filled on the '
                        'normal path and closed by a handler on every exceptional path; TEMP: an element built in a local buffer is destroyed or '
                        'relocated on every exit; RAWTAIL: no may-throw call between a construct into raw storage and the size commit covering it, '
-                       'outside a handler that destroys the new objects; TAIL: every size commit follows the lifetime operation it accounts for; '
+                       'outside a handler that destroys the new objects; DEAD-TAIL: the dual - no may-throw call between the destruction of elements still counted by size() and the size commit; TAIL: every size commit follows the lifetime operation it accounts for; '
                        'STRONG: in the operations documented as strong nothing observable is modified before the last may-throw call (roll-back '
                        'handlers excepted); THROW-REACH: no noexcept(true) amc function reaches a throw source (an exception the property expects '
                        'to propagate would become std::terminate); BLOCK: a block obtained from the allocator into a local variable is owned (member store, '
